@@ -271,7 +271,7 @@ def run(oc, tier, seed, model_available, escalate):
         rc, st, out, txt = eu.correct(P, root, e2, os.path.join(d, "out"))
         oc.oracle_cases += 1
         if rc != "0" or st != (len(tree), 0, 0, 0, 0, 0) or out:
-            v = {"input": {"params": P.describe(), "tree": sorted(tree), "ecc": bytes(data).hex() if len(data) < 4000 else "<%d bytes>" % len(data)},
+            v = {"input": {"params": P.describe(), "tree": sorted(tree), "ecc": bytes(data).hex()},
                  "impl": {"exit": rc, "stats": st},
                  "what": "metadata damaged within the intra bound: the files were not all found and verified normally"}
             if P.algo in (1, 2):
